@@ -1,5 +1,5 @@
 (* allow-axioms:  *)
-From RRE Require Import Base.Sx Model.KB Proofs.KBProofs Proofs.KBRefineProofs Proofs.KBLinProofs.
+From RRE Require Import Base.Sx Model.KB Model.KBConc Proofs.KBProofs Proofs.KBRefineProofs Proofs.KBLinProofs Proofs.KBConcLockProofs Proofs.KBConcProofs Proofs.KBConcProgressProofs.
 From Coq Require Import Permutation.
 From Coq Require Import Sorting.Sorted.
 Open Scope Z_scope.
@@ -19,3 +19,16 @@ Check (C15_spec_listing : forall s, NoDup (map s_seq (srules s)) ->
 Check (C15_lin_checker_decides : forall fuel k p, (length p <= fuel)%nat ->
   (lin fuel k p = true <->
    exists s, Permutation s p /\ rt s = true /\ replay k s = true)).
+Check (C15_source_lock_table_admissible : forall o,
+  ascending_from 0 (src_locks o) = true /\ covers (src_locks o) o = true).
+Check (C15_every_interleaving_linearizable : forall progs sched,
+  let s := run src_locks sched (ginit progs) in
+  quiescent s ->
+  linearizable sinit (map to_cevent (hist s)) /\ cells s = sigma s /\
+  exists order, Permutation order (hist s) /\ Replays init (map hkey order) (cells s)).
+Check (C15_monitor_accepts_every_interleaving : forall progs sched,
+  let s := run src_locks sched (ginit progs) in
+  quiescent s -> lin (S (length (hist s))) sinit (map to_cevent (hist s)) = true).
+Check (C15_no_deadlock : forall progs sched,
+  let s := run src_locks sched (ginit progs) in
+  ~ finished s -> exists t s', cstep src_locks t s = Some s').
